@@ -395,6 +395,39 @@ def run(ctx):
                 jam.rel,
                 nn.lineno,
             )
+    # ---- C10.10 an entry of a polled collection is published complete ------------------------------------
+    # Array submission runs on the arrayer's thread while the monitor thread iterates the pending collection.  Publishing an empty per-array dict
+    # and filling it in a loop lets a poll in between see a partial array: for an array that completes at once the monitor processes the
+    # children it sees, pops the key, and the rest are never reported.
+    r10 = ctx.rule("C10.10", "a per-array entry of a monitor-polled collection is assigned complete, not filled after publication", floor=1)
+    n10 = 0
+    for rel in EXECUTORS:
+        mod = repo.mod(rel)
+        for qn, fn in mod.funcs.items():
+            if "array" not in qn.lower():
+                continue
+            for a in ast.walk(fn):
+                if isinstance(a, ast.Assign) and isinstance(a.targets[0], ast.Subscript) and isinstance(a.targets[0].value, ast.Attribute) and src(a.targets[0].value.value) == "self" and a.targets[0].value.attr.startswith("pending_"):
+                    n10 += 1
+                    coll = a.targets[0].value.attr
+                    key = src(a.targets[0].slice)
+                    empty = (isinstance(a.value, ast.Dict) and not a.value.keys) or (isinstance(a.value, ast.Call) and call_name(a.value) in ("dict", "defaultdict") and not a.value.args)
+                    filled_later = [
+                        lp for lp in ast.walk(fn)
+                        if isinstance(lp, (ast.For, ast.While)) and lp.lineno > a.lineno and any(
+                            isinstance(x, ast.Assign) and isinstance(x.targets[0], ast.Subscript) and f"self.{coll}[{key}]" in src(x.targets[0].value) for x in ast.walk(lp)
+                        )
+                    ]
+                    r10.check(
+                        not (empty and filled_later),
+                        f"{rel}:{qn}:{coll}:published-empty",
+                        f"{qn} assigns an empty container to self.{coll}[{key}] (line {a.lineno}) and fills it in a loop afterwards: the monitor thread polling self.{coll} in between sees a partial array; "
+                        "if the array job has already finished it reports the children present so far, drops the key, and the remaining jobs are never reported",
+                        rel,
+                        a.lineno,
+                    )
+    if n10 == 0:
+        raise AnalysisError("no per-array registration into a pending_* collection found in the executors", "executors")
 
 
 def _unregistered_path(fn, jv):
